@@ -217,13 +217,8 @@ func flagCases(g *hc.Gen, o *hc.Out, pr *hc.Proc, cpu int, ncases int) {
 				c.w = genWindow(g, nrows, true, frameFn)
 			}
 		}
-		// under --strict-equal SortValue.Less answers FALSE in both directions for two texts that differ only in
-		// letter case and then ignores the following ORDER BY items: which of the two comes first is decided by the
-		// sort algorithm alone.  The stream compares what is determined: with a text key in front of `id` only
-		// functions that do not depend on the order among such rows would qualify — the key item is dropped there.
-		if strict && len(c.items) == 2 {
-			c.items = c.items[1:]
-		}
+		// (a text key in front of `id` is generated under --strict-equal too: since fix 4d8b777 / F116 SortValue.Less
+		// keeps texts that differ only in letter case apart in a fixed order and consults the following items)
 		runFlagCase(g, o, pr, rows, table, c, strict, cpu)
 	}
 }
